@@ -217,3 +217,20 @@ CONFIG["C08"] = {
     "assumptions": COMMON_ASSUMPTIONS + ["environments in which the run fails are only checked for clean failure"],
     "counter_floors": {"quick": {"run-ok": 20000, "pruned.has-assertions": 3000, "run-failed.prune-failed-same-kind": 1000}, "thorough": {"run-ok": 800000}},
 }
+
+CONFIG["C14"] = {
+    "budget_s": {"quick": 120, "thorough": 1500},
+    "floor": {"quick": 5000, "thorough": 50000},
+    "post_steps": [{"name": "ffi_boundary", "jet_reps": 1}],
+    "rule": ("(1) for all 368 Core, 471 Elements and 428 Bitcoin jets: decode(encode(j)) == j consuming exactly the code at two alignments with junk behind, byte-aligned strict prefixes give EndOfStream, "
+             "the sorted code list is prefix-free, every bit string of <= 12 bits that is neither a code, a prefix nor an extension of one gives InvalidJet, the display name parses back, type names expand to types of the "
+             "stated width and TMR; every Core jet has the types of its Elements namesake and the same code behind the family bit 0. (2) for all 471 Elements jets the one-node expression is run through C decodeMallocDag / "
+             "mallocTypeInference / analyseBounds and C's CMR, source/target TMR and width, node cost and cost bound are compared with the Rust table. (3) every Elements and Core jet is executed 8 (thorough 100) times on plausible "
+             "inputs in generated environments through BitMachine::exec (Rust wrapper -> rustsimplicity_0_7_c_<name>) and through the C evaluator's own jet table (evalTCOExpression with input/output buffers, harness binding); outputs "
+             "(decoded at the target type) and failure verdicts must agree and no frame access may leave its frame. (4) programs are evaluated through simplicity-sys's own run_program/evalTCOProgram binding and through the harness's "
+             "nine-parameter binding; verdicts must agree and the process must not abort. (5) under gdb, every extern declaration of simplicity-sys is compared with the debug info of the linked C function (arity, pointer/integer class, size) "
+             "and the first real call of each function is observed (pointer formals must be NULL or readable). Non-trivial: every case; distinct: distinct jets / (jet, repetition) pairs."),
+    "exhaustive_claim": "all 368+471+428 jet table entries (monitor 1), all 471 Elements jets against C (monitor 2), all 497 extern declarations against debug info (monitor 5); inputs of monitor 3 are sampled",
+    "assumptions": COMMON_ASSUMPTIONS + ["return-type differences that are ABI-compatible on x86-64 are observed but not judged", "Bitcoin family: codes, names and type names only (roots, costs and bindings are unimplemented in this revision)"],
+    "counter_floors": {"quick": {"exec.both-ok": 5000, "table.Core": 368, "table.Elements": 471, "table.Bitcoin": 428, "namesakes": 368}, "thorough": {"exec.both-ok": 60000}},
+}
